@@ -235,6 +235,110 @@ func ruleIDGenerator(w *World, r *Report) {
 		}
 		nRet := 0
 		tableField := -1
+		// table helpers of the same type: insertsKey(m) — m records its key parameter in the receiver's table on every
+		// path; reservesKey(m) — m returns true only after a lookup miss of its key parameter and after recording it
+		sameType := func(m *ssa.Function) bool {
+			return m != nil && m.Blocks != nil && m.Signature.Recv() != nil && len(m.Params) == 2 && namedOf(m.Signature.Recv().Type()) != nil && namedOf(m.Signature.Recv().Type()).Obj() == t.Obj()
+		}
+		var insertsKey func(m *ssa.Function, depth int) (int, bool)
+		insertsKey = func(m *ssa.Function, depth int) (int, bool) {
+			if !sameType(m) || depth > 2 {
+				return -1, false
+			}
+			for _, b := range m.Blocks {
+				for _, ins := range b.Instrs {
+					field, hit := -1, false
+					switch x := ins.(type) {
+					case *ssa.MapUpdate:
+						if f, ok := mapFieldOfRecv(x.Map, m.Params[0]); ok && w.normKey(x.Key) == ssa.Value(m.Params[1]) {
+							field, hit = f, true
+						}
+					case *ssa.Call:
+						if cal := x.Common().StaticCallee(); cal != nil && len(x.Common().Args) == 2 && x.Common().Args[0] == ssa.Value(m.Params[0]) && w.normKey(x.Common().Args[1]) == ssa.Value(m.Params[1]) {
+							if f, ok := insertsKey(cal, depth+1); ok {
+								field, hit = f, true
+							}
+						}
+					}
+					if !hit {
+						continue
+					}
+					all := true
+					for _, rb := range m.Blocks {
+						if _, isRet := rb.Instrs[len(rb.Instrs)-1].(*ssa.Return); isRet && !(b == rb || b.Dominates(rb)) {
+							all = false
+						}
+					}
+					if all {
+						return field, true
+					}
+				}
+			}
+			return -1, false
+		}
+		reservesKey := func(m *ssa.Function) (int, bool) {
+			if !sameType(m) || m.Signature.Results().Len() != 1 || !isBool(m.Signature.Results().At(0).Type()) {
+				return -1, false
+			}
+			field := -1
+			sawTrue := false
+			for _, b := range m.Blocks {
+				rt, ok := b.Instrs[len(b.Instrs)-1].(*ssa.Return)
+				if !ok {
+					continue
+				}
+				for _, leaf := range phiLeaves(rt.Results[0]) {
+					v, isC := constBool(leaf)
+					if !isC {
+						return -1, false
+					}
+					if !v {
+						continue
+					}
+					sawTrue = true
+					// a lookup miss of the key parameter dominates this return …
+					miss := false
+					for _, cf := range dominatingConds(b) {
+						for _, a := range condAtoms(cf.If.Cond, cf.Truth) {
+							ex, isEx := a.V.(*ssa.Extract)
+							if !isEx || ex.Index != 1 || a.Truth {
+								continue
+							}
+							if lk, isLk := ex.Tuple.(*ssa.Lookup); isLk {
+								if f, ok := mapFieldOfRecv(lk.X, m.Params[0]); ok && w.normKey(lk.Index) == ssa.Value(m.Params[1]) {
+									miss, field = true, f
+								}
+							}
+						}
+					}
+					// … and so does the recording of the key
+					rec := false
+					for _, ib := range m.Blocks {
+						if !(ib == b || ib.Dominates(b)) {
+							continue
+						}
+						for _, ins := range ib.Instrs {
+							switch x := ins.(type) {
+							case *ssa.MapUpdate:
+								if f, ok := mapFieldOfRecv(x.Map, m.Params[0]); ok && f == field && w.normKey(x.Key) == ssa.Value(m.Params[1]) {
+									rec = true
+								}
+							case *ssa.Call:
+								if cal := x.Common().StaticCallee(); cal != nil && len(x.Common().Args) == 2 && x.Common().Args[0] == ssa.Value(m.Params[0]) && w.normKey(x.Common().Args[1]) == ssa.Value(m.Params[1]) {
+									if f, ok := insertsKey(cal, 0); ok && f == field {
+										rec = true
+									}
+								}
+							}
+						}
+					}
+					if !miss || !rec {
+						return -1, false
+					}
+				}
+			}
+			return field, sawTrue
+		}
 		for _, b := range gen.Blocks {
 			rt, ok := b.Instrs[len(b.Instrs)-1].(*ssa.Return)
 			if !ok || len(rt.Results) != 1 {
@@ -243,6 +347,31 @@ func ruleIDGenerator(w *World, r *Report) {
 			nRet++
 			key := fmt.Sprintf("%s: return #%d", w.FnKey(gen), nRet)
 			rv := w.normKey(rt.Results[0])
+			// (i)+(ii) through a reserving helper: the return is dominated by the true edge of reserve(key(r))
+			reserved := false
+			for _, cf := range dominatingConds(b) {
+				if !cf.Truth {
+					continue
+				}
+				if rc, isCall := cf.If.Cond.(*ssa.Call); isCall {
+					if cal := rc.Common().StaticCallee(); cal != nil && len(rc.Common().Args) == 2 && rc.Common().Args[0] == ssa.Value(recv) && w.normKey(rc.Common().Args[1]) == rv {
+						if f, ok := reservesKey(cal); ok {
+							reserved = true
+							tableField = f
+						}
+					}
+				}
+			}
+			if reserved {
+				r.OK(key+" is inserted", w.InstrPos(rt), "returned under the true edge of a helper that records its key after a lookup miss")
+				r.OK(key+" is new", w.InstrPos(rt), "the helper answers true only on a lookup miss of that key")
+				if ok, why := w.nonEmptyValue(rt.Results[0], b, map[ssa.Value]bool{}); ok {
+					r.OK(key+" is non-empty", w.InstrPos(rt), "cannot be empty")
+				} else {
+					r.Bad(key+" is non-empty", w.InstrPos(rt), "the returned id can be empty: "+why)
+				}
+				continue
+			}
 			// (i)
 			var ins *upd
 			for i := range updates {
@@ -319,6 +448,26 @@ func ruleIDGenerator(w *World, r *Report) {
 						}
 						if cond {
 							okPut = true
+						}
+					}
+				}
+			}
+		}
+		// or through a recording helper called on every path
+		for _, b := range put.Blocks {
+			for _, ins := range b.Instrs {
+				if c, ok := ins.(*ssa.Call); ok {
+					if cal := c.Common().StaticCallee(); cal != nil && len(c.Common().Args) == 2 && c.Common().Args[0] == ssa.Value(precv) && w.normKey(c.Common().Args[1]) == ssa.Value(put.Params[1]) {
+						if f, ok := insertsKey(cal, 0); ok && (tableField < 0 || f == tableField) {
+							all := true
+							for _, rb := range put.Blocks {
+								if _, isRet := rb.Instrs[len(rb.Instrs)-1].(*ssa.Return); isRet && !(b == rb || b.Dominates(rb)) {
+									all = false
+								}
+							}
+							if all {
+								okPut = true
+							}
 						}
 					}
 				}
